@@ -2,6 +2,7 @@ package batching
 
 import (
 	"context"
+	"sync"
 )
 
 type BatchFetcher[T, R any] func(ctx context.Context, events []T) ([]R, error)
@@ -15,6 +16,7 @@ type ReorderFetcher[T, R any] struct {
 	fetchBatch BatchFetcher[T, R]
 	errChan    chan error
 	buffer     *ReorderBuffer[[]R]
+	flushMu    sync.Mutex // makes taking a batch and reserving its output slot one step
 }
 
 type NewReorderFetcherParams[T, R any] struct {
@@ -69,15 +71,21 @@ func (d *ReorderFetcher[T, R]) Flush(ctx context.Context) {
 
 // flush the current batch and then asynchronously run the `FetchBatch` callback.
 func (d *ReorderFetcher[T, R]) flush(ctx context.Context, token BatchToken) {
+	// The size-triggered flush and the time-out flusher run concurrently: the
+	// batch taken first must also get the earlier sequence number, otherwise
+	// results are emitted out of order.
+	d.flushMu.Lock()
 	events := d.batcher.Flush(token)
 	if d.batcher == nil {
 		panic("batcher became nil")
 	}
 	if len(events) == 0 {
+		d.flushMu.Unlock()
 		return
 	}
 
 	seqNum := d.buffer.Reserve()
+	d.flushMu.Unlock()
 	go func() {
 		result, err := d.fetchBatch(ctx, events)
 		if err != nil {
